@@ -38,7 +38,7 @@ def tree(node):
     return ["msgroot"]
 
 
-def run_trial(msgs, order, ids, nu=None):
+def run_trial(msgs, order, ids, nu=None, light=False):
     byid = {m["id"]: m for m in msgs}
     nu = nu or len(order)
     uid = order
@@ -52,10 +52,10 @@ def run_trial(msgs, order, ids, nu=None):
         except Exception as e:
             adds.append({"id": i, "done": [], "obs": [], "err": type(e).__name__})
             break
-        obs = [["none"]] * nu
+        obs = [] if light else [["none"]] * nu
         obs = list(obs)
         why = ""
-        for t in parser.incomplete_tasks():
+        for t in ([] if light else parser.incomplete_tasks()):
             r = t.root()
             if t.is_complete():
                 why = "retained_task_is_complete"
@@ -78,7 +78,7 @@ def run_trial(msgs, order, ids, nu=None):
         except Exception as e:
             why = "parse_stream_raised_" + type(e).__name__
     return {"adds": [{k: a[k] for k in ("id", "done", "obs", "err")} for a in adds], "incomplete": incomplete, "why": why,
-            "final_tasks": parser}
+            "final_tasks": parser, "light": light}
 
 
 def main():
@@ -121,7 +121,7 @@ def main():
                     trials.append(ids2)
             for ids in trials:
                 ids = [i for i in ids if 1 <= i <= len(msgs)]
-                res = run_trial(msgs, order, ids)
+                res = run_trial(msgs, order, ids, light=case.get("light", False))
                 parser = res.pop("final_tasks")
                 key = tuple(sorted(ids))
                 if not (res["adds"] and res["adds"][-1]["err"]):
